@@ -221,6 +221,47 @@ def run(ctx, chk):
     null_rule(prog, chk)
     block_write_rule(prog, chk)
     sibling_null_rule(prog, chk)
+    # R12.12 a (pointer, capacity) pair handed to the Argon2 string decoder never promises more room than the object has: in
+    # _needs_rehash every store of a capacity next to a buffer pointer in the argon2_context is the size the buffer was allocated
+    # with (the same term for calloc, or a constant not above the size of a local array)
+    n1212 = 0
+    for nr in [g for g in prog.functions() if not g.decl and g.sname == "_needs_rehash" and "crypto_pwhash/argon2/" in g.unit]:
+        szof = {i: ins.get("size") for i, ins in enumerate(nr.insts) if ins["op"] == "alloca"}
+        for p in cm.paths(prog, nr):
+            if p.kind != "ret":
+                continue
+            st = [e for e in p.events if e.kind == "store"]
+            ptrs = {e.addr: e for e in st if e.size == 8 and (e.val[0] == "alloca" or (e.val[0] == "call"))}
+            for a, e in ptrs.items():
+                base, off = (a, 0) if a[0] == "alloca" else ((a[1], a[2]) if a[0] == "gep" and not a[3] else (None, None))
+                if base is None or base[0] != "alloca":
+                    continue
+                cap = [x for x in st if x.addr == ("gep", base, off + 8, ()) and x.size == 4]
+                if not cap:
+                    continue
+                n1212 += 1
+                L = cap[-1].val
+                if L[0] == "cast":
+                    L = L[2]
+                V = e.val
+                ok, how = False, "?"
+                if V[0] == "alloca":
+                    size = szof.get(V[1])
+                    how = "a local array of %s bytes" % size
+                    ok = size is not None and ((L[0] == "c" and L[1] <= size) or
+                                               p.facts.truth(("icmp", "ule", L, C(size, 64))) is True)
+                elif V[0] == "call":
+                    al = [c for c in p.calls("calloc", "malloc") if c.res == V]
+                    if al:
+                        how = "%s(%s)" % (al[0].callee_name(), ", ".join(T.show(x, nr) for x in al[0].args))
+                        ok = L in al[0].args
+                    else:
+                        continue
+                chk.ob("R12.12", nr, "the capacity stored next to the buffer pointer at context offset %d is covered by the buffer" % off, ok,
+                       loc=nr.loc(cap[-1].iid), detail="" if ok else "the buffer is %s, the capacity is %s: the decoder may write past the buffer "
+                       "for a hash string with a long salt / hash field" % (how, T.show(L, nr)), path=None if ok else p,
+                       key="R12.12 %s capacity@%d" % (nr.unit.split("/")[-1], off))
+    chk.floor("R12.12", "(buffer, capacity) pairs set up for the Argon2 string decoder", n1212, 3)
     # R12.11 the four Argon2 backends fill the pseudo_rands array (malloc'ed with segment_length entries by argon2_initialize) with the
     # same index discipline: the scalar control skeletons of their generate_addresses() helpers agree (E7). A backend that stores
     # whole 128-entry address blocks writes up to 1016 bytes past the array whenever segment_length is not a multiple of 128.
